@@ -26,6 +26,14 @@ class VTok(ts.Token):
     def __repr__(self):
         return f'<{self.vid}:{self._raw_text!r}>'
 
+    # the tokens the library stores (RawTokenModel) compare by (rule, text): distinct objects can be ==, and
+    # the store must still tell them apart
+    def __eq__(self, other):
+        return isinstance(other, VTok) and self._raw_text == other._raw_text
+
+    def __hash__(self):
+        return hash(self._raw_text)
+
 
 def lf_constants(lf):
     """Re-evaluate the source's own definitions of the four constants with _LOAD_FACTOR := lf."""
@@ -137,6 +145,11 @@ class RealWorld:
             self.stores[sid] = s
             self.refs[sid] = list(toks)
             return line.rstrip(), self._ok(self.dump_store(sid)), [], None
+        if k == 'update_free':
+            # a token that is in no store has its text changed (and is typically re-inserted later)
+            t = self.toks[op['tok']]
+            t.raw_text = op['text']
+            return f'S updatefree {op["tok"]} {enc_text(op["text"])}', 'ok ' + self.dump_tok(None, t), [], None
         sid = op['sid']
         s = self.stores[sid]
         ref = self.refs[sid]
@@ -313,10 +326,13 @@ class Gen:
                 elif pool:
                     yield {'op': 'insert_after', 'sid': 1, 'ref': rng.choice(pool), 'toks': self.new(1)}
                 continue
+            if pool and rng.random() < 0.08:
+                yield {'op': 'update_free', 'sid': 1, 'tok': rng.choice(pool), 'text': rng.choice(TEXTS)}
+                continue
             if n == 0 or r < 0.30:
                 k = rng.choice([0, 1, 1, 2, 3, lf, 2 * lf + 1])
                 toks = self.new(k)
-                if pool and rng.random() < 0.3:
+                if pool and rng.random() < 0.4:
                     toks.append(pool.pop(rng.randrange(len(pool))))
                 which = rng.choice(['insert_after', 'insert_before'])
                 yield {'op': which, 'sid': 1, 'ref': (pick() if n and rng.random() < 0.9 else None), 'toks': toks}
@@ -341,7 +357,10 @@ class Gen:
                 pool.extend(sorted(before - {t.vid for t in world.refs[1]}))
             elif r < 0.78:
                 v = pick()
-                yield {'op': 'replace', 'sid': 1, 'tok': v, 'toks': self.new(1)}
+                new = self.new(1)
+                if rng.random() < 0.35:
+                    new[0][2] = world.toks[v].raw_text     # a distinct token that compares equal to the replaced one
+                yield {'op': 'replace', 'sid': 1, 'tok': v, 'toks': new}
                 pool.append(v)
             elif r < 0.95:
                 yield {'op': 'update', 'sid': 1, 'tok': pick(), 'text': rng.choice(TEXTS)}
@@ -385,7 +404,7 @@ def run_histories(ctx, nhist, nops, lfs, with_model=True, prefix='C07', judge=('
             shape1 = block_sig(world, op['sid'])
             ctx.case((op['op'], err, len(shape0), len(shape1), shape0 != shape1, min(shape1 or (0,)) <= consts[2], lf),
                      sample={'lf': lf, 'op': op, 'blocks_before': shape0, 'blocks_after': shape1} if ctx.evaluations % 997 == 0 else None)
-            if err is None and op['op'] != 'iter':
+            if err is None and op['op'] not in ('iter', 'update_free'):
                 bad = world.oracle(op['sid'], removed) + world.oracle_iter(op['sid'], ctx.rng)
                 bad = [b for b in bad if b[0].split(':')[0] in judge]
                 ql, qe, _, _ = world.apply({'op': 'query', 'sid': op['sid']})
